@@ -70,6 +70,8 @@ def panic_sites(prog, inst):
             ext = prog.ext.get(rp)
             if ext is not None and f.get('rkrate') not in ('minicbor', 'minicbor_serde', 'minicbor_io'):
                 mp = ext['may_panic']
+                if 'ops::Index' in rp and any('RangeFull' in a for a in (f.get('rargs') or [])):
+                    continue   # x[..] cannot be out of bounds
                 if mp in ('yes', 'unknown'):
                     out.append({'kind': 'ext:' + mp, 'op': rp, 'why': ext.get('why'), 'sp': t.get('sp'), 'bb': bi})
             if 't' not in t:
